@@ -210,7 +210,8 @@ Proof.
 Qed.
 
 (* ------------------------------------------------------------------ the invariant of a streamed payload *)
-(* F: the chunks fed so far (first piece included); eof / err: feed_eof / set_error has been called *)
+(* F: the chunks fed so far (first piece included); eof: feed_eof has been called; last: the error of
+   the most recent set_error *)
 Definition content (s : st) (c : chan) (F : list bytes) : Prop :=
   match md s, rd s with
   | MLoop, (LoopIdle | LoopWait | Done _) => got s ++ items c = F
@@ -221,14 +222,16 @@ Definition content (s : st) (c : chan) (F : list bytes) : Prop :=
   | _, _ => False
   end.
 
-Record Inv (F : list bytes) (eof err : bool) (s : st) (c : chan) : Prop := mkInv {
+Record Inv (F : list bytes) (eof : bool) (last : option N) (s : st) (c : chan) : Prop := mkInv {
   i_pl : pl s = PStream c;
   i_ok : chan_ok c;
   i_content : content s c F;
   i_eof1 : f_eof c = true -> eof = true \/ exists e, rd s = Done (Some e);
   i_eof2 : eof = true -> f_eof c = true;
   i_err1 : f_error c = true -> ch_err c <> None \/ exists e, rd s = Done (Some e);
-  i_err2 : err = false -> ch_err c = None /\ f_error c = false;
+  i_err2 : last = None -> ch_err c = None /\ f_error c = false;
+  i_err3 : forall x, ch_err c = Some x -> last = Some x;
+  i_err4 : last <> None -> running (rd s) = true -> ch_err c <> None;
   i_wake : borrowed (rd s) = true -> woken s = true \/ (recv_reg c = true /\ can_progress c = false)
 }.
 
@@ -246,37 +249,47 @@ Proof.
   - intros (r & A & B). exists r. split; auto.
 Qed.
 
-Lemma inv_sender F eof err s c c' w (F' : list bytes) (eof' err' : bool) :
-  Inv F eof err s c ->
+(* an operation of the sender: the error state is either untouched or set to e *)
+Lemma inv_sender F eof last s c c' w (F' : list bytes) (eof' : bool) (last' : option N) :
+  Inv F eof last s c ->
   chan_ok c' ->
   (forall g, g ++ items c = F -> g ++ items c' = F') ->
   (forall b, b ++ concat (items c) = concat F -> b ++ concat (items c') = concat F') ->
   (f_eof c' = true -> f_eof c = true \/ eof' = true) -> (eof = true -> eof' = true) ->
   (eof' = true -> f_eof c' = true) ->
-  (f_error c' = true -> (f_error c = true /\ ch_err c' = ch_err c) \/ ch_err c' <> None) ->
-  (err' = false -> err = false /\ ch_err c' = ch_err c /\ f_error c' = f_error c) ->
+  ((f_error c' = f_error c /\ ch_err c' = ch_err c /\ last' = last) \/
+   (exists e, f_error c' = true /\ ch_err c' = Some e /\ last' = Some e)) ->
   w = recv_reg c ->
-  Inv F' eof' err' (set_woken (set_pl s (PStream c')) (woken s || w)) c'.
+  Inv F' eof' last' (set_woken (set_pl s (PStream c')) (woken s || w)) c'.
 Proof.
-  intros I Hok H1 H2 E1 E2 E3 R1 R2 ->. constructor; proj.
+  intros I Hok H1 H2 E1 E2 E3 R ->. constructor; proj.
   - reflexivity.
   - assumption.
   - eapply content_ext; [| | | exact H1 | exact H2 | apply I]; reflexivity.
   - intros H. destruct (E1 H) as [H'|H']; [|auto]. destruct (i_eof1 _ _ _ _ _ I H') as [X|X]; auto.
   - assumption.
-  - intros H. destruct (R1 H) as [(H' & He)|H']; [|auto].
-    destruct (i_err1 _ _ _ _ _ I H') as [X|X]; [left; congruence|auto].
-  - intros H. destruct (R2 H) as (A & B & C). destruct (i_err2 _ _ _ _ _ I A) as (X & Y). split; congruence.
+  - destruct R as [(A & B & C)|(e & A & B & C)].
+    + rewrite A, B. apply I.
+    + intros _. left. rewrite B. discriminate.
+  - destruct R as [(A & B & C)|(e & A & B & C)].
+    + rewrite A, B, C. apply I.
+    + rewrite C. discriminate.
+  - destruct R as [(A & B & C)|(e & A & B & C)].
+    + rewrite B, C. apply I.
+    + rewrite B, C. auto.
+  - destruct R as [(A & B & C)|(e & A & B & C)].
+    + rewrite B, C. apply I.
+    + intros _ _. rewrite B. discriminate.
   - intros H. left. destruct (i_wake _ _ _ _ _ I H) as [X|(X & _)]; rewrite X; [reflexivity|apply orb_true_r].
 Qed.
 
 Lemma concat_snoc (l : list bytes) d : concat (l ++ [d]) = concat l ++ d.
 Proof. rewrite concat_app. cbn [concat]. rewrite app_nil_r. reflexivity. Qed.
 
-Lemma inv_feed F eof err s c d :
-  Inv F eof err s c ->
+Lemma inv_feed F eof last s c d :
+  Inv F eof last s c ->
   exists c', step s (Feed d) = Ok (set_woken (set_pl s (PStream c')) (woken s || recv_reg c)) /\
-             Inv (F ++ [d]) eof err (set_woken (set_pl s (PStream c')) (woken s || recv_reg c)) c'.
+             Inv (F ++ [d]) eof last (set_woken (set_pl s (PStream c')) (woken s || recv_reg c)) c'.
 Proof.
   intros I. destruct (feed_data_spec c d) as (c' & Hf & Hi & Hl & (A1 & A2 & A3 & A4) & Hr).
   exists c'. split.
@@ -288,14 +301,13 @@ Proof.
     + rewrite A1. auto.
     + auto.
     + rewrite A1. apply I.
-    + rewrite A2, A3. auto.
-    + rewrite A2, A3. auto.
+    + left. auto.
 Qed.
 
-Lemma inv_feed_eof F eof err s c :
-  Inv F eof err s c ->
+Lemma inv_feed_eof F eof last s c :
+  Inv F eof last s c ->
   exists c', step s FeedEof = Ok (set_woken (set_pl s (PStream c')) (woken s || recv_reg c)) /\
-             Inv F true err (set_woken (set_pl s (PStream c')) (woken s || recv_reg c)) c'.
+             Inv F true last (set_woken (set_pl s (PStream c')) (woken s || recv_reg c)) c'.
 Proof.
   intros I. destruct (feed_eof_spec c) as (c' & Hf & Hi & Hl & A1 & A2 & A3 & A4 & Hr).
   exists c'. split.
@@ -306,18 +318,16 @@ Proof.
     + rewrite Hi. auto.
     + auto.
     + auto.
-    + rewrite A2, A3. auto.
-    + rewrite A2, A3. auto.
+    + left. auto.
 Qed.
 
-Lemma inv_set_error F eof err s c e :
-  Inv F eof err s c ->
+Lemma inv_set_error F eof last s c e :
+  Inv F eof last s c ->
   exists c', step s (SetError e) = Ok (set_woken (set_pl s (PStream c')) (woken s || recv_reg c)) /\
-             ch_err c' = Some e /\
-             Inv F eof true (set_woken (set_pl s (PStream c')) (woken s || recv_reg c)) c'.
+             Inv F eof (Some e) (set_woken (set_pl s (PStream c')) (woken s || recv_reg c)) c'.
 Proof.
   intros I. destruct (set_error_spec c e) as (c' & Hf & Hi & Hl & A1 & A2 & A3 & A4 & Hr).
-  exists c'. split; [|split; [assumption|]].
+  exists c'. split.
   - cbn [step]. unfold on_chan. rewrite (i_pl _ _ _ _ _ I), Hf. reflexivity.
   - eapply inv_sender; try exact I; try reflexivity.
     + unfold chan_ok. rewrite Hl, Hi. apply I.
@@ -326,12 +336,11 @@ Proof.
     + rewrite A1. auto.
     + auto.
     + rewrite A1. apply I.
-    + intros _. right. rewrite A3. discriminate.
-    + discriminate.
+    + right. eauto.
 Qed.
 
-Lemma inv_take F eof err s c :
-  Inv F eof err s c -> Inv F eof err (step_take s) c.
+Lemma inv_take F eof last s c :
+  Inv F eof last s c -> Inv F eof last (step_take s) c.
 Proof.
   intros I. unfold step_take. destruct (borrowed (rd s)); [assumption|].
   cbn [pl_take fst]. destruct I. constructor; proj; auto.
@@ -343,21 +352,16 @@ Proof. unfold content. destruct (md s), (rd s); try discriminate; try contradict
 Lemma content_mode_all s c F : content s c F -> is_all (rd s) = true -> md s = MAll.
 Proof. unfold content. destruct (md s), (rd s); try discriminate; try contradiction; auto. Qed.
 
-Lemma not_done_loop r : is_loop r = true -> forall e, r <> Done e.
-Proof. destruct r; try discriminate; intros _ e H; discriminate. Qed.
-Lemma not_done_all r : is_all r = true -> forall e, r <> Done e.
-Proof. destruct r; try discriminate; intros _ e H; discriminate. Qed.
-
 (* facts about a running reader that follow from the invariant *)
-Lemma inv_eof_running F eof err s c :
-  Inv F eof err s c -> running (rd s) = true -> f_eof c = true -> eof = true.
+Lemma inv_eof_running F eof last s c :
+  Inv F eof last s c -> running (rd s) = true -> f_eof c = true -> eof = true.
 Proof.
   intros I Hr H. destruct (i_eof1 _ _ _ _ _ I H) as [X|(e & X)]; [assumption|].
   rewrite X in Hr. discriminate.
 Qed.
 
-Lemma inv_err_running F eof err s c :
-  Inv F eof err s c -> running (rd s) = true -> f_error c = true -> ch_err c <> None.
+Lemma inv_err_running F eof last s c :
+  Inv F eof last s c -> running (rd s) = true -> f_error c = true -> ch_err c <> None.
 Proof.
   intros I Hr H. destruct (i_err1 _ _ _ _ _ I H) as [X|(e & X)]; [assumption|].
   rewrite X in Hr. discriminate.
@@ -368,16 +372,34 @@ Proof. destruct r; auto; discriminate. Qed.
 Lemma running_all r : is_all r = true -> running r = true.
 Proof. destruct r; auto; discriminate. Qed.
 
-Lemma inv_poll_loop F eof err s c :
-  Inv F eof err s c -> is_loop (rd s) = true ->
-  exists s' c', step s Poll = Ok s' /\ Inv F eof err s' c' /\ md s' = md s.
+Lemma content_loop F eof last s c :
+  Inv F eof last s c -> is_loop (rd s) = true -> md s = MLoop /\ got s ++ items c = F.
+Proof.
+  intros I Hl. pose proof (content_mode_loop _ _ _ (i_content _ _ _ _ _ I) Hl) as Hm.
+  split; [assumption|]. pose proof (i_content _ _ _ _ _ I) as C. unfold content in C. rewrite Hm in C.
+  destruct (rd s); try discriminate; exact C.
+Qed.
+
+Lemma content_all F eof last s c :
+  Inv F eof last s c -> is_all (rd s) = true ->
+  md s = MAll /\ acc_of (rd s) ++ concat (items c) = concat F /\ (fresh (rd s) = true -> items c = F).
+Proof.
+  intros I Ha. pose proof (content_mode_all _ _ _ (i_content _ _ _ _ _ I) Ha) as Hm.
+  split; [assumption|]. pose proof (i_content _ _ _ _ _ I) as C. unfold content in C. rewrite Hm in C.
+  destruct (rd s); try discriminate; cbn [acc_of fresh app].
+  - destruct C as (_ & <-). auto.
+  - destruct C as (_ & <-). auto.
+  - destruct C as (_ & C). split; [assumption|discriminate].
+Qed.
+
+Lemma inv_poll_loop F eof last s c :
+  Inv F eof last s c -> is_loop (rd s) = true ->
+  exists s' c', step s Poll = Ok s' /\ Inv F eof last s' c' /\ md s' = md s.
 Proof.
   intros I Hl.
-  pose proof (content_mode_loop _ _ _ (i_content _ _ _ _ _ I) Hl) as Hm.
+  destruct (content_loop _ _ _ _ _ I Hl) as (Hm & C').
   pose proof (running_loop _ Hl) as Hrun.
   pose proof (poll_spec_loop s c (i_pl _ _ _ _ _ I) (i_ok _ _ _ _ _ I) Hl) as P.
-  pose proof (i_content _ _ _ _ _ I) as C. unfold content in C. rewrite Hm in C.
-  assert (C' : got s ++ items c = F) by (destruct (rd s); try discriminate; exact C). clear C.
   destruct (items c) as [|d r] eqn:Hi.
   - (* no chunk *)
     unfold loop_out in P. destruct (ch_err c) as [e|] eqn:He.
@@ -391,6 +413,8 @@ Proof.
       * intros _. right. eauto.
       * intros H. destruct (i_err2 _ _ _ _ _ I H) as (X & _). congruence.
       * discriminate.
+      * discriminate.
+      * discriminate.
     + destruct (f_eof c || f_error c) eqn:Hf.
       * eexists. exists c. split; [exact P|]. split; [|reflexivity].
         constructor; proj.
@@ -401,6 +425,8 @@ Proof.
         -- apply I.
         -- intros H. exfalso. exact (inv_err_running _ _ _ _ _ I Hrun H He).
         -- apply I.
+        -- apply I.
+        -- discriminate.
         -- discriminate.
       * apply orb_false_iff in Hf as (Hf1 & Hf2).
         eexists. exists (set_recv c true). split; [exact P|]. split; [|reflexivity].
@@ -412,6 +438,8 @@ Proof.
         -- apply I.
         -- rewrite Hf2. discriminate.
         -- apply I.
+        -- apply I.
+        -- intros H _. exact (i_err4 _ _ _ _ _ I H Hrun).
         -- intros _. right. split; [reflexivity|]. unfold can_progress. proj. rewrite Hi, He, Hf1, Hf2. reflexivity.
   - destruct P as (c1 & Hpop & P).
     eexists. exists c1. split; [exact P|]. split; [|reflexivity].
@@ -425,28 +453,25 @@ Proof.
     + rewrite Q3. apply I.
     + rewrite Q4, Q5. intros H. left. eapply inv_err_running; eassumption.
     + rewrite Q4, Q5. apply I.
+    + rewrite Q5. apply I.
+    + rewrite Q5. intros H _. exact (i_err4 _ _ _ _ _ I H Hrun).
     + discriminate.
 Qed.
 
 Lemma andb_fresh_nil r (l : list bytes) : fresh r && isnil l = true -> fresh r = true /\ l = [].
 Proof. intros H. apply andb_true_iff in H as (A & B). split; [assumption|]. destruct l; [reflexivity|discriminate]. Qed.
 
-Lemma inv_poll_all F eof err s c :
-  Inv F eof err s c -> is_all (rd s) = true ->
-  exists s' c', step s Poll = Ok s' /\ Inv F eof err s' c' /\ md s' = md s.
+Lemma inv_poll_all F eof last s c :
+  Inv F eof last s c -> is_all (rd s) = true ->
+  exists s' c', step s Poll = Ok s' /\ Inv F eof last s' c' /\ md s' = md s.
 Proof.
   intros I Ha.
-  pose proof (content_mode_all _ _ _ (i_content _ _ _ _ _ I) Ha) as Hm.
+  destruct (content_all _ _ _ _ _ I Ha) as (Hm & C1 & C2).
   pose proof (running_all _ Ha) as Hrun.
   destruct (poll_spec_all s c (i_pl _ _ _ _ _ I) (i_ok _ _ _ _ _ I) Ha) as (c0 & Hd & P).
-  assert (C1 : acc_of (rd s) ++ concat (items c) = concat F /\ (fresh (rd s) = true -> items c = F)).
-  { pose proof (i_content _ _ _ _ _ I) as C. unfold content in C. rewrite Hm in C.
-    destruct (rd s); try discriminate; cbn [acc_of fresh app].
-    - destruct C as (_ & <-). auto.
-    - destruct C as (_ & <-). auto.
-    - destruct C as (_ & C). split; [assumption|discriminate]. }
-  destruct C1 as (C1 & C2).
   pose proof Hd as (D1 & D2 & (D3 & D4 & D5 & D6) & D7).
+  pose proof (i_err2 _ _ _ _ _ I) as J2. pose proof (i_err3 _ _ _ _ _ I) as J3.
+  pose proof (i_err4 _ _ _ _ _ I) as J4.
   unfold all_out in P.
   destruct (ch_err c) as [e|] eqn:He.
   - cbv beta iota in P.
@@ -458,7 +483,9 @@ Proof.
     + intros _. right. eauto.
     + reflexivity.
     + intros _. right. eauto.
-    + intros H. destruct (i_err2 _ _ _ _ _ I H) as (X & _). congruence.
+    + intros H. destruct (J2 H) as (X & _). discriminate.
+    + discriminate.
+    + discriminate.
     + discriminate.
   - destruct (f_eof c || f_error c) eqn:Hf.
     + destruct (fresh (rd s) && isnil (items c)) eqn:Hn; cbv beta iota in P.
@@ -470,7 +497,9 @@ Proof.
         -- intros _. right. eauto.
         -- rewrite D3. apply I.
         -- intros _. right. eauto.
-        -- intros H. destruct (i_err2 _ _ _ _ _ I H) as (X & Y). split; congruence.
+        -- rewrite D4, D5. exact J2.
+        -- rewrite D5. discriminate.
+        -- discriminate.
         -- discriminate.
       * eexists. exists c0. split; [exact P|]. split; [|reflexivity].
         constructor; proj.
@@ -480,12 +509,14 @@ Proof.
            rewrite D1. cbn [concat]. rewrite app_nil_r. exact C1.
         -- rewrite D3. intros H. left. eapply inv_eof_running; eassumption.
         -- rewrite D3. apply I.
-        -- rewrite D4. intros H. exfalso. exact (inv_err_running _ _ _ _ _ I Hrun H He).
-        -- intros H. destruct (i_err2 _ _ _ _ _ I H) as (X & Y). split; congruence.
+        -- rewrite D4. intros H. exfalso. apply (inv_err_running _ _ _ _ _ I Hrun H). assumption.
+        -- rewrite D4, D5. exact J2.
+        -- rewrite D5. discriminate.
+        -- discriminate.
         -- discriminate.
     + apply orb_false_iff in Hf as (Hf1 & Hf2).
       assert (W : recv_reg (set_recv c0 true) = true /\ can_progress (set_recv c0 true) = false).
-      { split; [reflexivity|]. unfold can_progress. proj. rewrite D1, D5, ?He, D3, D4, Hf1, Hf2. reflexivity. }
+      { split; [reflexivity|]. unfold can_progress. proj. rewrite D1, D5, D3, D4, Hf1, Hf2. reflexivity. }
       destruct (fresh (rd s) && isnil (items c)) eqn:Hn; cbv beta iota in P.
       * apply andb_fresh_nil in Hn as (Hn1 & Hn2).
         eexists. exists (set_recv c0 true). split; [exact P|]. split; [|reflexivity].
@@ -496,7 +527,9 @@ Proof.
         -- rewrite D3, Hf1. discriminate.
         -- rewrite D3. apply I.
         -- rewrite D4, Hf2. discriminate.
-        -- intros H. destruct (i_err2 _ _ _ _ _ I H) as (X & Y). split; congruence.
+        -- rewrite D4, D5. exact J2.
+        -- rewrite D5. discriminate.
+        -- intros H _. exfalso. exact (J4 H Hrun eq_refl).
         -- intros _. right. exact W.
       * eexists. exists (set_recv c0 true). split; [exact P|]. split; [|reflexivity].
         constructor; proj.
@@ -507,7 +540,9 @@ Proof.
         -- rewrite D3, Hf1. discriminate.
         -- rewrite D3. apply I.
         -- rewrite D4, Hf2. discriminate.
-        -- intros H. destruct (i_err2 _ _ _ _ _ I H) as (X & Y). split; congruence.
+        -- rewrite D4, D5. exact J2.
+        -- rewrite D5. discriminate.
+        -- intros H _. exfalso. exact (J4 H Hrun eq_refl).
         -- intros _. right. exact W.
 Qed.
 
@@ -517,18 +552,22 @@ Proof. destruct r; cbn; eauto. Qed.
 Lemma step_poll_done s x : rd s = Done x -> step s Poll = Ok s.
 Proof. intros H. cbn [step]. unfold step_poll. rewrite H. reflexivity. Qed.
 
+Definition last_step (last : option N) (o : op) : option N :=
+  match o with SetError e => Some e | _ => last end.
+Definition last_run (last : option N) (ops : list op) : option N := fold_left last_step ops last.
+
 (* every operation keeps the invariant and succeeds: no panic, the fuel of read_all's loop suffices *)
-Lemma inv_step F eof err s c o :
-  Inv F eof err s c ->
+Lemma inv_step F eof last s c o :
+  Inv F eof last s c ->
   exists s' c', step s o = Ok s' /\
-                Inv (F ++ fed_ops [o]) (eof || is_feed_eof o) (err || is_set_error o) s' c' /\
+                Inv (F ++ fed_ops [o]) (eof || is_feed_eof o) (last_step last o) s' c' /\
                 md s' = md s.
 Proof.
-  intros I. destruct o as [d| |e| |]; cbn [fed_ops is_feed_eof is_set_error];
+  intros I. destruct o as [d| |e| |]; cbn [fed_ops is_feed_eof last_step];
     rewrite ?app_nil_r, ?orb_false_r, ?orb_true_r.
   - destruct (inv_feed _ _ _ _ _ d I) as (c' & H1 & H2). eauto.
   - destruct (inv_feed_eof _ _ _ _ _ I) as (c' & H1 & H2). eauto.
-  - destruct (inv_set_error _ _ _ _ _ e I) as (c' & H1 & _ & H2). eauto.
+  - destruct (inv_set_error _ _ _ _ _ e I) as (c' & H1 & H2). eauto.
   - destruct (rd_cases (rd s)) as [H|[H|(x & H)]].
     + eapply inv_poll_loop; eassumption.
     + eapply inv_poll_all; eassumption.
@@ -542,15 +581,13 @@ Proof.
   induction a as [|o r IH]; [reflexivity|]. cbn [app fed_ops]. destruct o; rewrite IH; reflexivity.
 Qed.
 
-Definition err_set (ops : list op) : bool := existsb is_set_error ops.
-
-Lemma inv_run ops : forall F eof err s c,
-  Inv F eof err s c ->
+Lemma inv_run ops : forall F eof last s c,
+  Inv F eof last s c ->
   exists s' c', run_from s ops = Ok s' /\
-                Inv (F ++ fed_ops ops) (eof || eof_fed ops) (err || err_set ops) s' c' /\ md s' = md s.
+                Inv (F ++ fed_ops ops) (eof || eof_fed ops) (last_run last ops) s' c' /\ md s' = md s.
 Proof.
-  induction ops as [|o r IH]; intros F eof err s c I.
-  - exists s, c. cbn [run_from fed_ops eof_fed err_set existsb]. rewrite app_nil_r, !orb_false_r. auto.
+  induction ops as [|o r IH]; intros F eof last s c I.
+  - exists s, c. cbn [run_from fed_ops eof_fed existsb last_run fold_left]. rewrite app_nil_r, !orb_false_r. auto.
   - destruct (inv_step _ _ _ _ _ o I) as (s1 & c1 & H1 & I1 & M1).
     destruct (IH _ _ _ _ _ I1) as (s2 & c2 & H2 & I2 & M2).
     exists s2, c2. cbn [run_from]. rewrite H1. cbn [bind]. split; [assumption|]. split; [|congruence].
@@ -558,18 +595,17 @@ Proof.
     { change (o :: r) with ([o] ++ r). rewrite fed_ops_app, app_assoc. reflexivity. }
     assert (E2 : eof || eof_fed (o :: r) = (eof || is_feed_eof o) || eof_fed r).
     { unfold eof_fed. cbn [existsb]. apply orb_assoc. }
-    assert (E3 : err || err_set (o :: r) = (err || is_set_error o) || err_set r).
-    { unfold err_set. cbn [existsb]. apply orb_assoc. }
-    rewrite E1, E2, E3. exact I2.
+    rewrite E1, E2. exact I2.
 Qed.
 
 Lemma inv_init m first size :
-  exists c, Inv (first_chunks first) false false (init_stream m first size) c.
+  exists c, Inv (first_chunks first) false None (init_stream m first size) c.
 Proof.
   unfold init_stream, from_stream. destruct first as [|b t].
   - exists (chan_new size). constructor; proj; try discriminate; try reflexivity.
     + unfold content. proj. destruct m; cbn [start_of]; auto.
     + auto.
+    + intros H. contradiction.
     + destruct m; discriminate.
   - destruct (feed_data_spec (chan_new size) (b :: t)) as (c' & Hf & Hi & Hl & (A1 & A2 & A3 & A4) & Hr).
     exists c'. rewrite Hf. cbn [fst]. constructor; proj.
@@ -580,13 +616,15 @@ Proof.
     + discriminate.
     + rewrite A2. discriminate.
     + intros _. rewrite A2, A3. auto.
+    + rewrite A3. discriminate.
+    + intros H. contradiction.
     + destruct m; discriminate.
 Qed.
 
 (* the invariant in every reachable state *)
 Lemma reach m first size ops :
   exists s c, run m first size ops = Ok s /\
-              Inv (fed_chunks first ops) (eof_fed ops) (err_set ops) s c /\ md s = m.
+              Inv (fed_chunks first ops) (eof_fed ops) (last_run None ops) s c /\ md s = m.
 Proof.
   destruct (inv_init m first size) as (c0 & I0).
   destruct (inv_run ops _ _ _ _ _ I0) as (s & c & H & I & M).
@@ -595,8 +633,413 @@ Qed.
 
 Lemma reach_inv m first size ops s :
   run m first size ops = Ok s ->
-  exists c, Inv (fed_chunks first ops) (eof_fed ops) (err_set ops) s c /\ md s = m.
+  exists c, Inv (fed_chunks first ops) (eof_fed ops) (last_run None ops) s c /\ md s = m.
 Proof.
   intros H. destruct (reach m first size ops) as (s' & c & H' & I & M).
   rewrite H in H'. injection H' as <-. eauto.
+Qed.
+
+(* ------------------------------------------------------------------ frame facts of the steps *)
+Lemma on_chan_frame s f : rd (on_chan s f) = rd s /\ got (on_chan s f) = got s /\ md (on_chan s f) = md s.
+Proof. unfold on_chan. destruct (pl s) as [o|c]; [auto|]. destruct (f c). proj. auto. Qed.
+
+Lemma step_frame s o s' :
+  step s o = Ok s' -> is_poll o = false -> rd s' = rd s /\ got s' = got s /\ md s' = md s.
+Proof.
+  destruct o; cbn [step is_poll]; intros H Hp; try discriminate; injection H as <-;
+    try apply on_chan_frame.
+  unfold step_take. destruct (borrowed (rd s)); proj; auto.
+Qed.
+
+Lemma step_done s o s' x : rd s = Done x -> step s o = Ok s' -> rd s' = Done x /\ got s' = got s.
+Proof.
+  intros Hd H. destruct (is_poll o) eqn:Hp.
+  - destruct o; try discriminate. rewrite (step_poll_done _ _ Hd) in H. injection H as <-. auto.
+  - destruct (step_frame _ _ _ H Hp) as (A & B & _). rewrite A. auto.
+Qed.
+
+Lemma run_done ops : forall s s' x,
+  rd s = Done x -> run_from s ops = Ok s' -> rd s' = Done x /\ got s' = got s.
+Proof.
+  induction ops as [|o r IH]; intros s s' x Hd H; cbn [run_from] in H.
+  - injection H as <-. auto.
+  - destruct (step s o) as [s1| |] eqn:E; cbn [bind] in H; try discriminate.
+    destruct (step_done _ _ _ _ Hd E) as (A & B).
+    destruct (IH _ _ _ A H) as (C & D). split; congruence.
+Qed.
+
+Lemma run_from_app a : forall s b s1, run_from s a = Ok s1 -> run_from s (a ++ b) = run_from s1 b.
+Proof.
+  induction a as [|o r IH]; intros s b s1 H; cbn [app run_from] in *.
+  - injection H as <-. reflexivity.
+  - destruct (step s o) as [s2| |] eqn:E; cbn [bind] in *; try discriminate. apply IH. assumption.
+Qed.
+
+Lemma running_not_done r : running r = false -> exists x, r = Done x.
+Proof. destruct r; try discriminate; eauto. Qed.
+
+(* a finished reader finished at one definite poll, and nothing it holds changes afterwards *)
+Lemma first_done ops : forall s s' x,
+  run_from s ops = Ok s' -> running (rd s) = true -> rd s' = Done x ->
+  exists pre post s1 s2,
+    ops = pre ++ Poll :: post /\ run_from s pre = Ok s1 /\ running (rd s1) = true /\
+    step s1 Poll = Ok s2 /\ rd s2 = Done x /\ got s' = got s2.
+Proof.
+  induction ops as [|o r IH]; intros s s' x H Hr Hd; cbn [run_from] in H.
+  - injection H as <-. rewrite Hd in Hr. discriminate.
+  - destruct (step s o) as [s1| |] eqn:E; cbn [bind] in H; try discriminate.
+    destruct (running (rd s1)) eqn:Hr1.
+    + destruct (IH _ _ _ H Hr1 Hd) as (pre & post & t1 & t2 & A & B & C & D & G & K).
+      exists (o :: pre), post, t1, t2. cbn [app run_from]. rewrite E. cbn [bind]. subst r. auto 10.
+    + apply running_not_done in Hr1 as (y & Hy).
+      destruct (is_poll o) eqn:Hp.
+      * destruct o; try discriminate.
+        destruct (run_done _ _ _ _ Hy H) as (A & B).
+        exists [], r, s, s1. cbn [app run_from]. rewrite A in Hd. injection Hd as <-. auto 10.
+      * destruct (step_frame _ _ _ E Hp) as (A & _). rewrite A in Hy. rewrite Hy in Hr. discriminate.
+Qed.
+
+(* ------------------------------------------------------------------ the finishing poll *)
+Lemma finish_ok F eof last s c s2 :
+  Inv F eof last s c -> running (rd s) = true -> step s Poll = Ok s2 -> rd s2 = Done None ->
+  eof = true /\ match md s with MLoop => got s2 = F | MAll => got s2 = [concat F] end.
+Proof.
+  intros I Hrun H Hd. destruct (rd_cases (rd s)) as [Hl|[Ha|(x & Hx)]].
+  - destruct (content_loop _ _ _ _ _ I Hl) as (Hm & C).
+    pose proof (poll_spec_loop s c (i_pl _ _ _ _ _ I) (i_ok _ _ _ _ _ I) Hl) as P.
+    destruct (items c) as [|d r] eqn:Hi.
+    + rewrite P in H. injection H as <-. unfold loop_out in Hd |- *.
+      destruct (ch_err c) eqn:He; proj; [discriminate|].
+      destruct (f_eof c || f_error c) eqn:Hf; proj; [|discriminate].
+      rewrite Hm. rewrite app_nil_r in C. split; [|assumption].
+      apply orb_true_iff in Hf as [Hf|Hf]; [eapply inv_eof_running; eassumption|].
+      exfalso. exact (inv_err_running _ _ _ _ _ I Hrun Hf He).
+    + destruct P as (c1 & _ & P). rewrite P in H. injection H as <-. proj. discriminate.
+  - destruct (content_all _ _ _ _ _ I Ha) as (Hm & C1 & C2).
+    destruct (poll_spec_all s c (i_pl _ _ _ _ _ I) (i_ok _ _ _ _ _ I) Ha) as (c0 & Hdr & P).
+    rewrite P in H. injection H as <-. unfold all_out in Hd |- *.
+    destruct (ch_err c) eqn:He; proj; [discriminate|].
+    destruct (f_eof c || f_error c) eqn:Hf.
+    + destruct (fresh (rd s) && isnil (items c)); proj; [discriminate|].
+      rewrite Hm, C1. split; [|reflexivity].
+      apply orb_true_iff in Hf as [Hf|Hf]; [eapply inv_eof_running; eassumption|].
+      exfalso. exact (inv_err_running _ _ _ _ _ I Hrun Hf He).
+    + destruct (fresh (rd s) && isnil (items c)); proj; discriminate.
+  - rewrite Hx in Hrun. discriminate.
+Qed.
+
+(* with an error set and not yet taken the finishing poll answers that error *)
+Lemma finish_err F eof last s c s2 x :
+  Inv F eof last s c -> last <> None -> running (rd s) = true -> step s Poll = Ok s2 -> rd s2 = Done x ->
+  x = last.
+Proof.
+  intros I Hl Hrun H Hd.
+  pose proof (i_err4 _ _ _ _ _ I Hl Hrun) as He.
+  destruct (ch_err c) as [e|] eqn:Ee; [|contradiction]. clear He.
+  pose proof (i_err3 _ _ _ _ _ I e Ee) as Hlast. subst last.
+  destruct (rd_cases (rd s)) as [Hlp|[Ha|(y & Hy)]].
+  - pose proof (poll_spec_loop s c (i_pl _ _ _ _ _ I) (i_ok _ _ _ _ _ I) Hlp) as P.
+    destruct (items c) as [|d r] eqn:Hi.
+    + rewrite P in H. injection H as <-. unfold loop_out in Hd. rewrite Ee in Hd. proj. congruence.
+    + destruct P as (c1 & _ & P). rewrite P in H. injection H as <-. proj. discriminate.
+  - destruct (poll_spec_all s c (i_pl _ _ _ _ _ I) (i_ok _ _ _ _ _ I) Ha) as (c0 & Hdr & P).
+    rewrite P in H. injection H as <-. unfold all_out in Hd. rewrite Ee in Hd. proj. congruence.
+  - rewrite Hy in Hrun. discriminate.
+Qed.
+
+(* read_all polled with an error pending finishes *)
+Lemma poll_all_err F eof last s c s2 :
+  Inv F eof last s c -> last <> None -> is_all (rd s) = true -> step s Poll = Ok s2 ->
+  running (rd s2) = false.
+Proof.
+  intros I Hl Ha H.
+  pose proof (i_err4 _ _ _ _ _ I Hl (running_all _ Ha)) as He.
+  destruct (ch_err c) as [e|] eqn:Ee; [|contradiction].
+  destruct (poll_spec_all s c (i_pl _ _ _ _ _ I) (i_ok _ _ _ _ _ I) Ha) as (c0 & Hdr & P).
+  rewrite P in H. injection H as <-. unfold all_out. rewrite Ee. reflexivity.
+Qed.
+
+(* ------------------------------------------------------------------ theorems *)
+Lemma start_running m : running (start_of m) = true.
+Proof. destruct m; reflexivity. Qed.
+
+Lemma total m first size ops : exists s, run m first size ops = Ok s.
+Proof. destruct (reach m first size ops) as (s & c & H & _). eauto. Qed.
+
+Lemma eof_fed_app a b : eof_fed (a ++ b) = eof_fed a || eof_fed b.
+Proof. unfold eof_fed. apply existsb_app. Qed.
+
+(* the decomposition of a run whose reader has finished Ok *)
+Lemma finished_ok m first size ops s :
+  run m first size ops = Ok s -> rd s = Done None ->
+  exists pre post, ops = pre ++ Poll :: post /\ eof_fed pre = true /\
+                   match m with MLoop => got s = fed_chunks first pre
+                              | MAll => got s = [fed_bytes first pre] end.
+Proof.
+  intros H Hd. unfold run in H.
+  destruct (first_done _ _ _ _ H (start_running m) Hd) as (pre & post & s1 & s2 & A & B & C & D & G & K).
+  exists pre, post. split; [assumption|].
+  destruct (reach_inv m first size pre s1 B) as (c & I & M).
+  destruct (finish_ok _ _ _ _ _ _ I C D G) as (E1 & E2). split; [assumption|].
+  rewrite M in E2. rewrite K. destruct m; exact E2.
+Qed.
+
+Lemma read_all_exact first size ops s :
+  run MAll first size ops = Ok s -> rd s = Done None ->
+  exists pre post, ops = pre ++ Poll :: post /\ eof_fed pre = true /\ got s = [fed_bytes first pre].
+Proof. intros H Hd. exact (finished_ok MAll first size ops s H Hd). Qed.
+
+Lemma no_feed_fed_ops l : existsb is_feed l = false -> fed_ops l = [].
+Proof.
+  induction l as [|o r IH]; [reflexivity|]. cbn [existsb fed_ops].
+  destruct o; cbn [is_feed orb]; try discriminate; assumption.
+Qed.
+
+Lemma feeds_end_split a : forall b,
+  feeds_end_at_eof (a ++ b) = true -> eof_fed a = true -> fed_ops b = [].
+Proof.
+  induction a as [|o r IH]; intros b H He; [discriminate|].
+  destruct o; cbn [app feeds_end_at_eof] in H; unfold eof_fed in He; cbn [existsb is_feed_eof orb] in He;
+    try (apply IH; assumption).
+  apply andb_true_iff in H as (H & _). apply negb_true_iff in H. rewrite existsb_app in H.
+  apply orb_false_iff in H as (_ & H). apply no_feed_fed_ops. assumption.
+Qed.
+
+Lemma fed_after_eof first pre post :
+  feeds_end_at_eof (pre ++ post) = true -> eof_fed pre = true ->
+  fed_chunks first (pre ++ post) = fed_chunks first pre.
+Proof.
+  intros H He. unfold fed_chunks. rewrite fed_ops_app, (feeds_end_split _ _ H He), app_nil_r. reflexivity.
+Qed.
+
+Lemma read_all_exact_dispatcher first size ops s :
+  feeds_end_at_eof ops = true -> run MAll first size ops = Ok s -> rd s = Done None ->
+  got s = [fed_bytes first ops].
+Proof.
+  intros Hf H Hd. destruct (read_all_exact _ _ _ _ H Hd) as (pre & post & -> & He & Hg).
+  rewrite Hg. unfold fed_bytes. rewrite (fed_after_eof first pre (Poll :: post) Hf He). reflexivity.
+Qed.
+
+(* the last chunk and the eof may arrive before the reader's first poll (or between any two):
+   with the eof in, no error set and the reader unfinished, one poll finishes read_all with every
+   byte fed; only a payload into which nothing was ever put answers Consumed *)
+Lemma last_run_none ops : forall last, last_run last ops = None -> last = None /\ existsb is_set_error ops = false.
+Proof.
+  induction ops as [|o r IH]; intros last H; cbn [last_run fold_left existsb] in *; [auto|].
+  fold (last_run (last_step last o) r) in H. destruct (IH _ H) as (A & B).
+  destruct o; cbn [last_step is_set_error orb] in *; try discriminate; auto.
+Qed.
+
+Lemma last_run_no_error ops : forall last, existsb is_set_error ops = false -> last_run last ops = last.
+Proof.
+  induction ops as [|o r IH]; intros last H; cbn [last_run fold_left existsb] in *; [reflexivity|].
+  apply orb_false_iff in H as (H1 & H2). fold (last_run (last_step last o) r). rewrite (IH _ H2).
+  destruct o; cbn [last_step is_set_error] in *; try discriminate; reflexivity.
+Qed.
+
+Lemma read_all_completes first size ops s :
+  run MAll first size ops = Ok s -> eof_fed ops = true -> existsb is_set_error ops = false ->
+  running (rd s) = true ->
+  exists s', step s Poll = Ok s' /\
+             ((rd s' = Done None /\ got s' = [fed_bytes first ops]) \/
+              (rd s' = Done (Some E_CONSUMED) /\ fed_chunks first ops = [])).
+Proof.
+  intros H He Hn Hrun. destruct (reach_inv _ _ _ _ _ H) as (c & I & M).
+  rewrite (last_run_no_error _ _ Hn) in I.
+  assert (Ha : is_all (rd s) = true).
+  { pose proof (i_content _ _ _ _ _ I) as C. unfold content in C. rewrite M in C.
+    destruct (rd s); try contradiction; try reflexivity. discriminate. }
+  destruct (content_all _ _ _ _ _ I Ha) as (_ & C1 & C2).
+  destruct (poll_spec_all s c (i_pl _ _ _ _ _ I) (i_ok _ _ _ _ _ I) Ha) as (c0 & Hdr & P).
+  eexists. split; [exact P|]. unfold all_out.
+  destruct (i_err2 _ _ _ _ _ I eq_refl) as (E1 & E2). rewrite E1, E2.
+  rewrite (i_eof2 _ _ _ _ _ I He). cbn [orb].
+  destruct (fresh (rd s) && isnil (items c)) eqn:Hn'; proj.
+  - right. split; [reflexivity|]. apply andb_fresh_nil in Hn' as (A & B). rewrite <- (C2 A). assumption.
+  - left. split; [reflexivity|]. unfold fed_bytes. rewrite C1. reflexivity.
+Qed.
+
+Lemma read_loop_exact first size ops s :
+  run MLoop first size ops = Ok s ->
+  (exists rest, got s ++ rest = fed_chunks first ops) /\
+  (rd s = Done None ->
+   exists pre post, ops = pre ++ Poll :: post /\ eof_fed pre = true /\ got s = fed_chunks first pre).
+Proof.
+  intros H. split.
+  - destruct (reach_inv _ _ _ _ _ H) as (c & I & M). exists (items c).
+    pose proof (i_content _ _ _ _ _ I) as C. unfold content in C. rewrite M in C.
+    destruct (rd s); try contradiction; exact C.
+  - intros Hd. exact (finished_ok MLoop first size ops s H Hd).
+Qed.
+
+Lemma read_loop_bytes first size ops s :
+  run MLoop first size ops = Ok s ->
+  (exists rest, held s ++ rest = fed_bytes first ops) /\
+  (rd s = Done None ->
+   exists pre post, ops = pre ++ Poll :: post /\ eof_fed pre = true /\ held s = fed_bytes first pre).
+Proof.
+  intros H. destruct (read_loop_exact _ _ _ _ H) as ((rest & A) & B). split.
+  - exists (concat rest). unfold held, fed_bytes. rewrite <- A, concat_app. reflexivity.
+  - intros Hd. destruct (B Hd) as (pre & post & X & Y & Z). exists pre, post.
+    split; [assumption|]. split; [assumption|]. unfold held, fed_bytes. rewrite Z. reflexivity.
+Qed.
+
+(* every poll of the read() loop with a chunk outstanding hands over exactly the next chunk *)
+Lemma read_loop_next first size ops s d rest :
+  run MLoop first size ops = Ok s -> running (rd s) = true ->
+  fed_chunks first ops = got s ++ d :: rest ->
+  exists s', step s Poll = Ok s' /\ got s' = got s ++ [d] /\ rd s' = LoopIdle.
+Proof.
+  intros H Hrun Hf. destruct (reach_inv _ _ _ _ _ H) as (c & I & M).
+  assert (Hl : is_loop (rd s) = true).
+  { pose proof (i_content _ _ _ _ _ I) as C. unfold content in C. rewrite M in C.
+    destruct (rd s); try contradiction; try reflexivity. discriminate. }
+  destruct (content_loop _ _ _ _ _ I Hl) as (_ & C).
+  rewrite Hf in C. apply app_inv_head in C.
+  pose proof (poll_spec_loop s c (i_pl _ _ _ _ _ I) (i_ok _ _ _ _ _ I) Hl) as P. rewrite C in P.
+  destruct P as (c1 & _ & P). eexists. split; [exact P|]. proj. auto.
+Qed.
+
+Lemma no_finish_before_eof m first size ops s :
+  run m first size ops = Ok s -> rd s = Done None -> eof_fed ops = true.
+Proof.
+  intros H Hd. destruct (finished_ok _ _ _ _ _ H Hd) as (pre & post & -> & He & _).
+  rewrite eof_fed_app, He. reflexivity.
+Qed.
+
+Lemma last_run_app a b last : last_run last (a ++ b) = last_run (last_run last a) b.
+Proof. unfold last_run. apply fold_left_app. Qed.
+
+Lemma last_run_in ops : forall e x, last_run (Some e) ops = Some x -> In (SetError x) (SetError e :: ops).
+Proof.
+  induction ops as [|o r IH]; intros e x H; cbn [last_run fold_left] in H.
+  - injection H as <-. left. reflexivity.
+  - fold (last_run (last_step (Some e) o) r) in H. destruct o; cbn [last_step] in H;
+      try (destruct (IH _ _ H) as [X|X]; [left; exact X|right; right; exact X]).
+    destruct (IH _ _ H) as [X|X]; [right; left; exact X|right; right; exact X].
+Qed.
+
+Lemma last_run_some ops : forall e, last_run (Some e) ops <> None.
+Proof.
+  induction ops as [|o r IH]; intros e; cbn [last_run fold_left]; [discriminate|].
+  fold (last_run (last_step (Some e) o) r). destruct o; cbn [last_step]; apply IH.
+Qed.
+
+Lemma error_observed m first size pre e post s0 s :
+  run m first size pre = Ok s0 -> running (rd s0) = true ->
+  run m first size (pre ++ SetError e :: post) = Ok s ->
+  (running (rd s) = true \/ exists e', rd s = Done (Some e') /\ In (SetError e') (SetError e :: post)) /\
+  (m = MAll -> existsb is_poll post = true -> running (rd s) = false).
+Proof.
+  intros H0 Hr0 H. unfold run in *. rewrite (run_from_app _ _ _ _ H0) in H. cbn [run_from] in H.
+  destruct (step s0 (SetError e)) as [s1| |] eqn:E1; cbn [bind] in H; try discriminate.
+  destruct (step_frame _ _ _ E1 eq_refl) as (F1 & _ & _).
+  assert (Hr1 : running (rd s1) = true) by (rewrite F1; assumption).
+  assert (R1 : run m first size (pre ++ [SetError e]) = Ok s1).
+  { unfold run. rewrite (run_from_app _ _ _ _ H0). cbn [run_from]. rewrite E1. reflexivity. }
+  assert (L1 : forall q, last_run None ((pre ++ [SetError e]) ++ q) = last_run (Some e) q).
+  { intros q. rewrite !last_run_app. cbn [last_run fold_left last_step]. reflexivity. }
+  split.
+  - destruct (running (rd s)) eqn:Hr; [left; reflexivity|right].
+    apply running_not_done in Hr as (x & Hx).
+    destruct (first_done _ _ _ _ H Hr1 Hx) as (p & q & t1 & t2 & A & B & C & D & G & K).
+    assert (Rt : run m first size ((pre ++ [SetError e]) ++ p) = Ok t1).
+    { unfold run in *. rewrite (run_from_app _ _ _ _ R1). assumption. }
+    destruct (reach_inv _ _ _ _ _ Rt) as (c & I & M). rewrite L1 in I.
+    pose proof (finish_err _ _ _ _ _ _ _ I (last_run_some p e) C D G) as Hx'.
+    destruct x as [e'|]; [|exfalso; exact (last_run_some p e (eq_sym Hx'))].
+    exists e'. split; [assumption|]. symmetry in Hx'. apply last_run_in in Hx'.
+    subst post. destruct Hx' as [X|X]; [left; exact X|right]. apply in_or_app. left. assumption.
+  - intros -> Hp. destruct (running (rd s)) eqn:Hr; [|reflexivity]. exfalso.
+    (* the first poll after the error finishes the reader *)
+    clear H0 Hr0 E1 F1.
+    assert (G : forall q t, run MAll first size ((pre ++ [SetError e]) ++ q) = Ok t ->
+                existsb is_poll q = true -> running (rd t) = false).
+    { intros q. induction q as [|o q IH] using rev_ind; intros t Ht Hq; [discriminate|].
+      rewrite existsb_app in Hq. cbn [existsb] in Hq. rewrite orb_false_r in Hq.
+      rewrite app_assoc in Ht. unfold run in Ht.
+      destruct (total MAll first size ((pre ++ [SetError e]) ++ q)) as (t0 & Ht0).
+      unfold run in Ht0. rewrite (run_from_app _ _ _ _ Ht0) in Ht. cbn [run_from] in Ht.
+      destruct (step t0 o) as [t1| |] eqn:Eo; cbn [bind] in Ht; try discriminate. injection Ht as <-.
+      destruct (running (rd t0)) eqn:Hrt.
+      - destruct (is_poll o) eqn:Ho.
+        + destruct o; try discriminate.
+          destruct (reach_inv _ _ _ _ _ Ht0) as (c & I & M). rewrite L1 in I.
+          assert (Ha : is_all (rd t0) = true).
+          { pose proof (i_content _ _ _ _ _ I) as C. unfold content in C. rewrite M in C.
+            destruct (rd t0); try contradiction; try reflexivity. discriminate. }
+          exact (poll_all_err _ _ _ _ _ _ I (last_run_some q e) Ha Eo).
+        + apply orb_true_iff in Hq as [Hq|Hq]; [|discriminate].
+          specialize (IH _ Ht0 Hq). congruence.
+      - apply running_not_done in Hrt as (y & Hy).
+        destruct (step_done _ _ _ _ Hy Eo) as (A & _). rewrite A. reflexivity. }
+    assert (Rs : run MAll first size ((pre ++ [SetError e]) ++ post) = Ok s).
+    { unfold run in *. rewrite (run_from_app _ _ _ _ R1). assumption. }
+    specialize (G _ _ Rs Hp). congruence.
+Qed.
+
+Lemma no_lost_wake m first size ops s c :
+  run m first size ops = Ok s -> chan_of s = Some c -> borrowed (rd s) = true ->
+  can_progress c = true -> woken s = true.
+Proof.
+  intros H Hc Hb Hp. destruct (reach_inv _ _ _ _ _ H) as (c' & I & _).
+  unfold chan_of in Hc. rewrite (i_pl _ _ _ _ _ I) in Hc. injection Hc as <-.
+  destruct (i_wake _ _ _ _ _ I Hb) as [X|(_ & X)]; [assumption|congruence].
+Qed.
+
+(* `len` is the number of buffered bytes in every reachable state (hence `len - data.len()` in
+   get_data does not underflow) *)
+Lemma len_counts m first size ops s c :
+  run m first size ops = Ok s -> chan_of s = Some c -> ch_len c = sum_len (items c).
+Proof.
+  intros H Hc. destruct (reach_inv _ _ _ _ _ H) as (c' & I & _).
+  unfold chan_of in Hc. rewrite (i_pl _ _ _ _ _ I) in Hc. injection Hc as <-. apply I.
+Qed.
+
+(* ------------------------------------------------------------------ Payload::from_bytes *)
+(* (payload, what the handler holds, reader) after n polls *)
+Definition fix_shape (buf : bytes) (m : mode) (n : nat) : payload * list bytes * rstate :=
+  match n, m with
+  | O, _ => (PFixed (Some buf), [], start_of m)
+  | S O, MLoop => (PFixed None, [buf], LoopIdle)
+  | _, _ => (PFixed None, [buf], Done None)
+  end.
+Definition FixInv (buf : bytes) (n : nat) (s : st) : Prop := (pl s, got s, rd s) = fix_shape buf (md s) n.
+
+Lemma fix_step buf n s o :
+  FixInv buf n s ->
+  exists s', step s o = Ok s' /\ FixInv buf (n + (if is_poll o then 1 else 0)) s' /\ md s' = md s.
+Proof.
+  destruct s as [m p r g w]. unfold FixInv. cbn [pl got rd md]. intros H.
+  destruct n as [|[|n]], m; cbn [fix_shape start_of] in H; injection H as -> -> ->; destruct o;
+    (eexists; split; [reflexivity|]; split; [|reflexivity]); reflexivity.
+Qed.
+
+Lemma polls_cons o r : polls (o :: r) = ((if is_poll o then 1 else 0) + polls r)%nat.
+Proof. unfold polls. cbn [filter]. destruct (is_poll o); reflexivity. Qed.
+
+Lemma fix_run buf ops : forall n s,
+  FixInv buf n s -> exists s', run_from s ops = Ok s' /\ FixInv buf (n + polls ops) s' /\ md s' = md s.
+Proof.
+  induction ops as [|o r IH]; intros n s I.
+  - exists s. cbn [run_from]. unfold polls. cbn [filter length]. replace (n + 0)%nat with n by lia. auto.
+  - destruct (fix_step _ _ _ o I) as (s1 & H1 & I1 & M1).
+    destruct (IH _ _ I1) as (s2 & H2 & I2 & M2).
+    exists s2. cbn [run_from]. rewrite H1. cbn [bind]. split; [assumption|]. split; [|congruence].
+    rewrite polls_cons. replace (n + ((if is_poll o then 1 else 0) + polls r))%nat with (n + (if is_poll o then 1 else 0) + polls r)%nat by lia. assumption.
+Qed.
+
+Lemma fixed_exact m buf ops :
+  exists s, run_from (init_fixed m buf) ops = Ok s /\ md s = m /\
+            match polls ops, m with
+            | O, _ => got s = [] /\ rd s = start_of m
+            | S O, MLoop => got s = [buf] /\ rd s = LoopIdle
+            | _, _ => got s = [buf] /\ rd s = Done None
+            end.
+Proof.
+  assert (I0 : FixInv buf 0 (init_fixed m buf)) by reflexivity.
+  destruct (fix_run buf ops 0%nat _ I0) as (s & H & I & M). cbn [Nat.add] in I.
+  exists s. split; [assumption|]. cbn [init_fixed md] in M. split; [assumption|].
+  unfold FixInv in I. rewrite M in I.
+  destruct (polls ops) as [|[|n]], m; cbn [fix_shape] in I; injection I as _ -> ->; auto.
 Qed.
